@@ -92,7 +92,13 @@ func runC16(c c16Case) vh.Result {
 			}
 			pc.Send("<message from='a@localhost/r' to='comp.localhost' id='after-handshake'><body>ping</body></message>")
 		case "stream-error":
-			pc.Send("<stream:error><" + c16StreamErrors[c.Var%len(c16StreamErrors)] + " xmlns='urn:ietf:params:xml:ns:xmpp-streams'/></stream:error></stream:stream>")
+			if (c.Var/len(c16StreamErrors))%2 == 0 {
+				pc.Send("<stream:error><" + c16StreamErrors[c.Var%len(c16StreamErrors)] + " xmlns='urn:ietf:params:xml:ns:xmpp-streams'/></stream:error></stream:stream>")
+			} else {
+				// a server that refuses but keeps the stream open and goes on sending: nothing of it may be routed
+				pc.Send("<stream:error><" + c16StreamErrors[c.Var%len(c16StreamErrors)] + " xmlns='urn:ietf:params:xml:ns:xmpp-streams'/></stream:error>")
+				pc.Send("<message from='a@localhost/r' to='comp.localhost' id='after-handshake'><body>ping</body></message>")
+			}
 		case "unexpected":
 			pc.Send(c16Unexpected[c.Var%len(c16Unexpected)])
 			pc.Send("<message from='a@localhost/r' to='comp.localhost' id='after-handshake'><body>ping</body></message>")
@@ -146,7 +152,7 @@ func runC16(c c16Case) vh.Result {
 	if c.Reply == "handshake" {
 		waitFor(3*time.Second, routedAfter)
 	} else {
-		time.Sleep(20 * time.Millisecond)
+		waitFor(60*time.Millisecond, routedAfter) // a wrongly started receive loop needs a moment to show
 	}
 	gotRouted, gotEstablished := routedAfter(), established()
 	// Disconnect waits ConnectTimeout (>= 1 s) for the peer's stream end when nobody reads; do not wait for it
@@ -213,7 +219,7 @@ func isASCII(s string) bool {
 
 var c16 = vh.Define(&vh.Def[c16Case]{
 	Property: "C16", Name: "component",
-	Rule: "stream ids over attribute-legal text (empty, uuid-like, entities, quotes, non-ASCII, astral, leading/trailing space, control white space sent as character references, all XML-legal text), secrets as arbitrary bytes, server reply drawn from <handshake/> (3 forms), every stream error condition (8), unexpected elements (8, incl. a handshake in the wrong namespace), malformed XML (4), truncated, closed; a real Component connects to the scripted peer; oracle: handshake text == lower-case hex SHA-1(id || secret) computed by the harness; Connect nil, state SessionEstablished and the following stanza routed iff the reply was <handshake/>; otherwise error, state not established, nothing routed; non-trivial = id or secret needs escaping / is non-ASCII, or the reply is not <handshake/>",
+	Rule: "stream ids over attribute-legal text (empty, uuid-like, entities, quotes, non-ASCII, astral, leading/trailing space, control white space sent as character references, all XML-legal text), secrets as arbitrary bytes, server reply drawn from <handshake/> (3 forms), every stream error condition (8; with the stream closed, or kept open and followed by a stanza), unexpected elements (8, incl. a handshake in the wrong namespace), malformed XML (4), truncated, closed; a real Component connects to the scripted peer; oracle: handshake text == lower-case hex SHA-1(id || secret) computed by the harness; Connect nil, state SessionEstablished and the following stanza routed iff the reply was <handshake/>; otherwise error, state not established, nothing routed; non-trivial = id or secret needs escaping / is non-ASCII, or the reply is not <handshake/>",
 	Quick: 2000, Thorough: 24000, Journal: true,
 	Gen: genC16, Run: runC16,
 })
